@@ -44,7 +44,7 @@ def check(run, model, tier):
     run.rule('HSM-CONTENT.O6-exit', 'every EXIT call goes to the state of the active chain at depth NX (NX = exits made so far in the step): exits climb from the current state one level at a time')
     run.rule('HSM-CONTENT.O6-lca', 'where the entry-path routine returns r: a state of the active chain at depth m was tested equal to the target\'s ancestor at depth q, NX == m and r == q-1 (parents for source == target)')
     run.rule('HSM-CONTENT.O7-noraise', 'no raise statement of dispatch/trans_ is reachable by a chart that follows the handler protocol: a well-formed transition is never aborted half-way')
-    cc = hsmrules.record_content_obligations(run, model, 'dispatch', cursor_at_entry=False)
+    cc = hsmrules.record_content_obligations(run, model, 'dispatch', cursor_at_entry=False, kinds={'O4-content', 'O5-content', 'O6-exit', 'O6-lca', 'O7-noraise'})
     run.floor('content store obligations in dispatch+trans_', cc['O4-content'], 5)
     run.floor('content entry obligations in dispatch', cc['O5-content'], 2)
     run.floor('exit obligations in dispatch+trans_', cc['O6-exit'], 4)
